@@ -83,6 +83,10 @@ func c09Specs() []c09Spec {
 			Threads: [][]c09Op{{add(m1)}, {{Kind: "get", MB: m1, Ref: "latest"}}, {{Kind: "remove", MB: m1, Ref: "init1"}}}, Bound: [2]int{2, 3}},
 		{ID: "S3-mem-cap1-maxkb-add-add", Store: sys.StoreSpec{Backend: "mem", Cap: 1, MaxKB: 1}, Init: []c09Op{{Kind: "add", MB: m1, Size: 400}},
 			Threads: [][]c09Op{{{Kind: "add", MB: m1, Size: 400}}, {{Kind: "add", MB: m2, Size: 400}}, {{Kind: "add", MB: m1, Size: 300}}}, Bound: [2]int{1, 2}, NoLin: true, LimitB: 1024},
+		// readers of mailboxes in DIFFERENT lock buckets: what they share is store-wide (the pool of
+		// buffered readers), no mailbox lock orders them
+		{ID: "S23-file-readers-in-different-buckets", Store: file, Init: []c09Op{add(m1), add(m1), add(storeBoxes[2]), add(storeBoxes[2])},
+			Threads: [][]c09Op{{{Kind: "list", MB: m1}}, {{Kind: "list", MB: storeBoxes[2]}}, {{Kind: "get", MB: m1, Ref: "latest"}}}, Bound: [2]int{2, 3}},
 		// the size limit's victim lives in the mailbox whose cap another delivery is enforcing
 		{ID: "S22-mem-cap1-maxkb-size-victim-in-capped-mailbox", Store: sys.StoreSpec{Backend: "mem", Cap: 1, MaxKB: 1}, Init: []c09Op{{Kind: "add", MB: m1, Size: 600}},
 			Threads: [][]c09Op{{{Kind: "add", MB: m1, Size: 300}}, {{Kind: "add", MB: m2, Size: 600}}}, Bound: [2]int{2, 3}, NoLin: true, LimitB: 1024},
